@@ -8,7 +8,19 @@ import itertools
 
 from vf import common, instr
 from vf.common import ShardResult
-from vf.seq import outcome
+import sys
+
+from vf.seq import outcome as _outcome
+
+
+def outcome(fn, *a, **k):
+    # the library runs under the interpreter's default limit for int -> str conversion (4300 digits); the harness formats its own
+    # messages without one (some probes have 5001 digits)
+    sys.set_int_max_str_digits(4300)
+    try:
+        return _outcome(fn, *a, **k)
+    finally:
+        sys.set_int_max_str_digits(0)
 
 PROP = "C16"
 LEVEL = "exploration"
@@ -221,6 +233,9 @@ def cases(tier, seed):
         ends = sorted({x for iv in ivs for x in iv})
         fin = [e for e in ends if e not in (inf, -inf)]
         yield list(ivs), sorted(set(ends + [e + 1 for e in fin] + [e - 1 for e in fin] + [0, 0.5]))
+    huge = 10 ** 5000           # more digits than the interpreter converts to text by default: a miss is still a KeyError
+    yield [(0, 1), (5, 6)], [huge, -huge, huge + 1, 3, 0, 5.5]
+    yield [(huge, huge + 2), (0, 1)], [huge - 1, huge, huge + 1, huge + 2, huge + 3, 0.5, 2]
     big = 10 ** 400
     for ivs in ([(big, big + 5), (0, 1)], [(-big, -big + 2), (big, big)], [(2 ** 1024, 2 ** 1024 + 1), (2 ** 1023, 2 ** 1023 + 1)]):
         ends = sorted({x for iv in ivs for x in iv})
@@ -266,6 +281,7 @@ def cases(tier, seed):
 
 def run_shard(spec):
     instr.install(["windpyutils.structures.maps", "windpyutils.structures.span_set"])
+    sys.set_int_max_str_digits(0)
     res = ShardResult()
     per = {}
     for i, (ivs, probes) in enumerate(cases(spec["tier"], spec["seed"])):
@@ -307,6 +323,7 @@ def extra_coverage(tier, seed):
 
 
 def replay(doc):
+    sys.set_int_max_str_digits(0)
     instr.install(["windpyutils.structures.maps", "windpyutils.structures.span_set"])
     c = doc["replay"]["case"]
     if c.get("threads"):
